@@ -50,6 +50,26 @@ UNITS['slice_assemble_dim'] = dict(file='src/util/dataAccess.cpp', locator=r'Dat
     region=dict(start=r'Dimension\s+dim\s*=\s*array\.getDimension\(i\s*\+\s*1\)\s*;', end=r'count\[i\]\s*\+=[^;]*;\s*\}',
                 params=[('const DataArray &', 'array'), ('const std::vector<double> &', 'start'), ('const std::vector<double> &', 'end'), ('const std::vector<double> &', 'my_start'),
                         ('const std::vector<double> &', 'my_end'), ('const std::vector<std::string> &', 'my_units'), ('RangeMatch', 'match'), ('NDSize &', 'count'), ('NDSize &', 'offset'), ('size_t', 'i')]))
+def fill_rules(ctx, toks):
+    """the vectors of this region are ghost records (vec_double_g / vec_nstr_g); rd.axis(1, k)[0] -> axis_first(1, k) (the tick at k)"""
+    from cxx2c import Tok, P, match_close
+    sampled = {toks[k + 1].t for k in range(len(toks) - 1) if toks[k].t == 'SampledDimension' and toks[k + 1].k == 'id'}
+    out = []; i = 0
+    while i < len(toks):
+        t = toks[i]
+        if t.k == 'id' and t.t == 'axis' and toks[i + 1].t == '(':
+            e = match_close(toks, i + 1)
+            if toks[e + 1].t == '[' and toks[e + 2].t == '0' and toks[e + 3].t == ']':
+                out.append(Tok('id', 'axis_first', t.ws)); out.extend(toks[i + 1:e + 1]); i = e + 4; continue
+        if t.k == 'id' and t.t in sampled and toks[i + 1].t == '[':
+            e = match_close(toks, i + 1)       # SampledDimension::operator[](index) returns the coordinate BY VALUE: X[e] -> X.at(e)
+            out.append(t); out.append(P('.', '')); out.append(Tok('id', 'at', '')); out.append(P('(', '')); out.extend(toks[i + 2:e]); out.append(P(')', '')); i = e + 1; continue
+        out.append(t); i += 1
+    return out
+UNITS['fill_pad_dim'] = dict(file='src/util/dataAccess.cpp', locator=r'void\s+fillPositionsExtentsAndUnits\s*\(', classes=['NDSize', 'Dimension', 'SampledDimension', 'RangeDimension', 'nstring', 'vec_double_g', 'vec_nstr_g'],
+    pre_rules=[fill_rules],
+    region=dict(start=r'DimensionType\s+dt\s*=\s*dim\.dimensionType\(\)\s*;', end=r'ends\.push_back\(end\);\s*\}\s*\}(?=\s*\}\s*\})',
+                params=[('const Dimension &', 'dim'), ('size_t', 'i'), ('vec_double_g &', 'starts'), ('vec_double_g &', 'ends'), ('vec_nstr_g &', 'units'), ('NDSize &', 'shape'), ('const char *', 'double_fail_msg')]))
 SLICE_EXTRA = ('opt_ndsize gh_ge; opt_pair gh_pair; double gh_pair_start, gh_pair_end; RangeMatch gh_pair_match; int gh_pair_calls; ndsize_t gh_pair_dim, gh_ge_dim; int gh_pair_unit, gh_ge_unit;\n')
 # NDSize helpers are linked as bodies (see nd_units.job): value-returning contracts make every later access a case split
 ND_BODIES = ['NDSize_size', 'NDSize_bool', 'NDSize_at']
@@ -80,8 +100,11 @@ JOBS += [
           includes=['nd.h', 'dataarray.h', 'dv.h', 'c17_slice.h'], defines=['ND_FULL_ALLOC'], cbmc_flags=UNW, expect_kinds=['postcondition', 'precondition'], timeout=900)] + \
     []   # positionAndExtentInData: contract written (dv.h); with NDSize_isub_scalar replaced by its contract the job terminates but the element-wise clause is lost
          # (that contract speaks about ghost_k only), with its body linked the job does not terminate within 30 min even for rank 1: not claimed
+FILL_EXTRA = 'int gh_push_starts, gh_push_ends, gh_push_units, gh_unit_pushed; double gh_start_pushed, gh_end_pushed; double *gh_ticks;\n'
+JOBS.append(dict(name='fill_pad_dim', bodies=['NDSize_size', 'NDSize_at', 'fill_pad_dim'], enforce=['fill_pad_dim'], replace=[], extra_c=FILL_EXTRA,
+                 includes=['nd.h', 'c17_fill.h'], defines=['ND_FULL_ALLOC'], cbmc_flags=UNW, expect_kinds=['postcondition'], timeout=600))
 SPEC = dict(
-    contracts=['nd.h', 'dv.h', 'c17_slice.h'], stubs=['dataarray.h'], include_order=['nd.h', 'dataarray.h', 'dv.h'], units=UNITS, jobs=JOBS,
+    contracts=['nd.h', 'dv.h', 'c17_slice.h', 'c17_fill.h'], stubs=['dataarray.h'], include_order=['nd.h', 'dataarray.h', 'dv.h'], units=UNITS, jobs=JOBS,
     trusted_base=['CBMC 6.11.0 (C front end, --dfcc contract instrumentation, SAT back end)',
                   'vlib/cxx2c.py idiom map'] + ND_TRUST,
     assumptions=['NDSize rank <= 32', 'ndsize_t arithmetic is 64-bit modular (bit-precise)'],
